@@ -333,6 +333,8 @@ class SimFS:
 
     def _syscall(self, op, q, extra=None, mut=False):
         """Account for one primitive; this is where crash/interrupt faults strike."""
+        if self.dead:
+            return      # the process is gone: whatever Python's unwinding still calls never happened
         self.nsys += 1
         self.clock += 1
         if not self.dead:
